@@ -316,10 +316,15 @@ def one(prog, rep, cls, comb):
     if vt[0] == "bin" and vt[1] == "*":
         for u, s_ in ((vt[2], vt[3]), (vt[3], vt[2])):
             if u[0] == "local" and usrc is None:
-                # (a) a local array filled component-wise in the angle loop
+                # (a) a local array filled component-wise in the angle loop (possibly under another name it was then bound from)
+                unit_names = {u[1]}
+                for _k in range(3):
+                    for x in F.body:
+                        if isinstance(x, ast.Assign) and len(x.targets) == 1 and isinstance(x.targets[0], ast.Name) and x.targets[0].id in unit_names and isinstance(x.value, ast.Name):
+                            unit_names.add(x.value.id)
                 comps = {}
                 for x in F.body:
-                    if isinstance(x, ast.Assign) and isinstance(x.targets[0], ast.Subscript) and isinstance(x.targets[0].value, ast.Name) and x.targets[0].value.id == u[1]:
+                    if isinstance(x, ast.Assign) and isinstance(x.targets[0], ast.Subscript) and isinstance(x.targets[0].value, ast.Name) and x.targets[0].value.id in unit_names:
                         comps[bf.term(x.targets[0].slice, x)] = bf.term(x.value, x)
                 if comps:
                     usrc = ("stores", comps, None)
